@@ -342,6 +342,19 @@ func RunApi(sc ApiScenario, base string, emit func(Ev)) error {
 		r.mu.Lock()
 		s0 := r.stops
 		r.mu.Unlock()
+		// the handlers learn "running" by asking the live status socket with a 3 s time-out: on a machine so loaded that
+		// this process cannot answer its own socket in time they would see "not running", which says nothing about them.
+		// The rig asks first; a slow or failed answer makes the action a record that is not judged
+		slow := false
+		if _, live := r.liveReq[a.D]; live {
+			if d, err := dag.LoadMetadata(r.file(a.D)); err == nil {
+				t0 := time.Now()
+				st, err := r.cli.GetCurrentStatus(d)
+				if err != nil || st == nil || st.Status != scheduler.StatusRunning || time.Since(t0) > 1200*time.Millisecond {
+					slow = true
+				}
+			}
+		}
 		code := r.call(a)
 		// the start is spawned asynchronously: give the stub a moment when something may have been spawned
 		if code < 400 && (a.Op == "start") {
@@ -366,7 +379,8 @@ func RunApi(sc ApiScenario, base string, emit func(Ev)) error {
 		if code >= 400 {
 			resp = "refused"
 		}
-		emit(Ev{"ev": "Op", "scen": sc.Scen, "i": i, "a": a, "resp": resp, "code": code, "pre": pre, "post": r.state(), "spawn": spawn, "stops": stops})
+		emit(Ev{"ev": "Op", "scen": sc.Scen, "i": i, "a": a, "resp": resp, "code": code, "pre": pre, "post": r.state(), "spawn": spawn, "stops": stops,
+			"slowProbe": slow})
 	}
 	emit(Ev{"ev": "End", "scen": sc.Scen})
 	return nil
